@@ -17,12 +17,18 @@ import (
 	"path/filepath"
 	"sort"
 	"strings"
+	"sync"
 )
 
 // Rng is SplitMix64; every random choice of every driver derives from one state.
 type Rng struct{ s uint64 }
 
-func NewRng(seed uint64) *Rng { return &Rng{s: seed*0x9E3779B97F4A7C15 + 0x1234567} }
+// NewRng hashes the seed first, so that different seeds give unrelated streams (not shifted copies).
+func NewRng(seed uint64) *Rng {
+	r := &Rng{s: seed}
+	r.s = r.U64() ^ 0x1234567
+	return r
+}
 func (r *Rng) U64() uint64 {
 	r.s += 0x9E3779B97F4A7C15
 	z := r.s
@@ -58,6 +64,7 @@ type Driver struct {
 	Exec     func(input string) Result
 	Shrink   func(input string) []string // optional: smaller candidate inputs
 	Teardown func()
+	Parallel int // optional: run Exec on this many inputs concurrently (Exec must then be goroutine-safe)
 }
 
 var drivers = map[string]*Driver{}
@@ -157,8 +164,27 @@ func main() {
 	seen := map[string]bool{}
 	var terms []string
 	var tagLines []string
-	for _, in := range inputs {
-		res := d.Exec(in)
+	results := make([]Result, len(inputs))
+	if d.Parallel > 1 {
+		sem := make(chan struct{}, d.Parallel)
+		var wg sync.WaitGroup
+		for i, in := range inputs {
+			wg.Add(1)
+			sem <- struct{}{}
+			go func(i int, in string) {
+				defer wg.Done()
+				defer func() { <-sem }()
+				results[i] = d.Exec(in)
+			}(i, in)
+		}
+		wg.Wait()
+	} else {
+		for i, in := range inputs {
+			results[i] = d.Exec(in)
+		}
+	}
+	for i, in := range inputs {
+		res := results[i]
 		terms = append(terms, res.Term)
 		tagLines = append(tagLines, strings.Join(res.Tags, ","))
 		meta.Evaluations++
